@@ -162,10 +162,13 @@ pub fn run(ctx: &Ctx) -> i32 {
                 if skip_os && *prov == Prov::KeygenOs {
                     continue;
                 }
-                if reduced && !matches!((ty, *prov), (KeyTy::Sk, Prov::KeygenSeed) | (KeyTy::Sk, Prov::FromBytes) | (KeyTy::Pk, Prov::KeygenSeed) | (KeyTy::Pk, Prov::Derived)) {
+                if reduced && !matches!((ty, *prov), (KeyTy::Sk, Prov::KeygenSeed) | (KeyTy::Pk, Prov::Derived)) {
                     continue;
                 }
                 for cont in CONTAINERS {
+                    if reduced && ty == KeyTy::Pk && cont != Container::Bare {
+                        continue;
+                    }
                     for v in 0..variants {
                         let mut p = Prng::for_run(ctx.seed, &format!("c16-{}-{ty:?}-{prov:?}-{cont:?}", set.info().name), v);
                         let n_uses = if v == 0 { 0 } else { 1 + p.usize_below(5) };
